@@ -60,6 +60,7 @@ FAULTS = [('setUp', 'raise:ValueError'), ('tearDown', 'raise:KeyError'),
 
 
 def cases(tier, seed):
+    import vworld
     rng = random.Random(seed * 7919 + 1)
     out = []
     nworlds = 60 if tier == 'quick' else 900
